@@ -103,8 +103,12 @@ class Report:
         known = load_known().get(self.property_id, {})
         wall = time.time() - self.t0
         viol = self.violations
-        new = [o for o in viol if o.key not in known]
-        listed = [o for o in viol if o.key in known]
+        new, listed, seen_keys = [], [], set()
+        for o in viol:
+            if o.key in seen_keys:
+                continue  # one report per rule+construct
+            seen_keys.add(o.key)
+            (listed if o.key in known else new).append(o)
         for o in listed:
             print(f"KNOWN-FINDING: property={self.property_id} {o.rule} {o.instance}: {known[o.key]}")
         replay_paths = []
